@@ -5,7 +5,7 @@
    The proofs are by case analysis only, so that they survive any re-arrangement of the source that keeps the
    meaning (they do not depend on the shape of the generated term). *)
 From RG Require Import Base.Bytes Base.LineTerm Model.Lines Model.SearcherCore Model.Glue Model.SearcherGlue
-  Model.Decode Model.Summary Model.Standard Model.IgnoreDir Model.LibExpected Gen.DecisionsLib.
+  Model.Decode Model.Summary Model.Standard Model.Json Model.IgnoreDir Model.Walk Model.LibExpected Model.LibArgs Gen.DecisionsLib.
 Local Open Scope bool_scope.
 
 (* the model keeps matcher.non_matching_bytes() as one membership function, "false if None" (Model/SearcherCore.v
@@ -108,3 +108,77 @@ Proof. intros a b; destruct a, b; reflexivity. Qed.
 (* non-vacuity of [nm_agrees]: both views of a matcher's non-matching set exist for every matcher *)
 Lemma nm_agrees_some : forall M, nm_agrees M (Some (m_nonmatching M)).
 Proof. intros M b. reflexivity. Qed.
+
+(* ------------------------------------------------------------------ json.rs *)
+Lemma json_should_quit_eq : forall (cfg : jconfig) (match_count after_rem : nat),
+  DecisionsLib.json_should_quit (j_max cfg) match_count after_rem = Json.js_should_quit cfg match_count after_rem.
+Proof.
+  intros cfg mc ar. unfold DecisionsLib.json_should_quit, json_should_quit_expected, standard_should_quit_expected,
+    Json.js_should_quit.
+  destruct (j_max cfg); reflexivity.
+Qed.
+
+Lemma json_match_more_than_limit_eq : forall (cfg : jconfig) (match_count : nat),
+  DecisionsLib.json_match_more_than_limit (j_max cfg) match_count = Json.js_more_than_limit cfg match_count.
+Proof.
+  intros cfg mc. unfold DecisionsLib.json_match_more_than_limit, json_match_more_than_limit_expected,
+    match_more_than_limit_expected, Json.js_more_than_limit.
+  destruct (j_max cfg); reflexivity.
+Qed.
+
+(* ------------------------------------------------------------------ walk.rs (Model/Walk.v) *)
+Lemma skip_filesize_eq : forall (fs : fsys) (maxsz : N) (e : dent),
+  DecisionsLib.skip_filesize maxsz (de_len fs e) = Walk.skip_filesize fs maxsz e.
+Proof.
+  intros fs maxsz e. unfold DecisionsLib.skip_filesize, skip_filesize_expected, Walk.skip_filesize.
+  destruct (de_len fs e) as [n|]; [|reflexivity]. destruct (maxsz <? n)%N; reflexivity.
+Qed.
+
+(* the model has no stdout handle (self.skip = None); d5 = true is the tree after the repair of D5 *)
+Lemma skip_entry_eq : forall (fs : fsys) (max_filesize : option N) (has_filter : bool) (filter : dent -> bool)
+    (should_skip : igstack -> dent -> bool) (ig : igstack) (e : dent) (pe : bool),
+  DecisionsLib.skip_entry (de_depth e) (should_skip ig e) None pe (is_some_N max_filesize) (de_is_dir e)
+                          (filesize_verdict fs max_filesize e) (filter_of has_filter filter e)
+  = skip_entry_with fs max_filesize has_filter filter should_skip true ig e.
+Proof.
+  intros fs mf hf filter ss ig e pe.
+  unfold DecisionsLib.skip_entry, skip_entry_expected, skip_entry_with, filter_of, filesize_verdict, is_some_N.
+  destruct (Nat.eqb (de_depth e) 0); [reflexivity|].
+  destruct (ss ig e); [reflexivity|].
+  destruct mf as [m|]; destruct (de_is_dir e); destruct hf; cbn [andb negb];
+    try destruct (Walk.skip_filesize fs m e); try destruct (filter e); reflexivity.
+Qed.
+
+(* the remaining input of the source function: with a stdout handle, an entry that is that file is skipped *)
+Lemma skip_entry_stdout : forall depth mfs isd sfv flt,
+  depth <> 0 -> DecisionsLib.skip_entry depth false (Some tt) true mfs isd sfv flt = true.
+Proof.
+  intros depth mfs isd sfv flt Hd. unfold DecisionsLib.skip_entry, skip_entry_expected.
+  destruct (Nat.eqb depth 0) eqn:E; [apply Nat.eqb_eq in E; contradiction|]. reflexivity.
+Qed.
+Lemma skip_entry_not_stdout : forall depth ss mfs isd sfv flt,
+  DecisionsLib.skip_entry depth ss (Some tt) false mfs isd sfv flt
+  = DecisionsLib.skip_entry depth ss None false mfs isd sfv flt.
+Proof.
+  intros. unfold DecisionsLib.skip_entry, skip_entry_expected.
+  destruct (Nat.eqb depth 0); [reflexivity|]. destruct ss; reflexivity.
+Qed.
+
+(* Worker::generate_work: should_skip_entry first, then the two decisions and the send condition, is par_skip *)
+Lemma par_skip_eq : forall (fs : fsys) (max_filesize : option N) (has_filter : bool) (filter : dent -> bool)
+    (should_skip : igstack -> dent -> bool) (ig : igstack) (e : dent),
+  (if should_skip ig e then true else
+   negb (DecisionsLib.par_send
+           (DecisionsLib.par_should_skip_filesize (is_some_N max_filesize) (de_is_dir e)
+                                                  (filesize_verdict fs max_filesize e))
+           (DecisionsLib.par_should_skip_filtered (filter_of has_filter filter e))))
+  = par_skip fs max_filesize has_filter filter should_skip ig e.
+Proof.
+  intros fs mf hf filter ss ig e.
+  unfold DecisionsLib.par_send, DecisionsLib.par_should_skip_filesize, DecisionsLib.par_should_skip_filtered,
+    par_send_expected, par_should_skip_filesize_expected, par_should_skip_filtered_expected,
+    par_skip, filter_of, filesize_verdict, is_some_N.
+  destruct (ss ig e); [reflexivity|].
+  destruct mf as [m|]; destruct (de_is_dir e); destruct hf; cbn [andb negb];
+    try destruct (Walk.skip_filesize fs m e); try destruct (filter e); reflexivity.
+Qed.
